@@ -102,7 +102,7 @@ class Prop:
             if f.startswith("cases_C17_"):
                 os.unlink(os.path.join(d, f))
         inp = os.path.join(d, "in.json")
-        keys = ("type", "init", "data", "proto", "src", "dst", "tlen", "raw", "nbufs", "offset", "room")
+        keys = ("gseed", "type", "init", "data", "proto", "src", "dst", "tlen", "raw", "nbufs", "offset", "room")
         json.dump([{k: c[k] for k in keys if k in c} for c in cases], open(inp, "w"))
         self._run_go(["-replay", inp, "-out", d, "-shards", str(min(16, max(1, len(cases))))])
         meta, files = self._load(d)
